@@ -85,6 +85,7 @@ def check(repo, rep, tier):
         # every sentence of a batch is searched with the configuration and tables of the call (nothing is re-read or
         # consumed per sentence)
         rp.r_sentence_loop(repo, rep, 'R1.3', ti)
+        rp.r_root_ids(repo, rep, 'R1.3', ti)            # every allowed root category gets an id, whether the tagger knows it or not
     rp.r_config_once(repo, rep, 'R1.3')
     from .c11 import r_state, r_chunks, r_gather
     r_state(repo, rep, 'R1.3')
